@@ -419,6 +419,39 @@ theorem euler_step_cb_cstr_safe {σ : Type} [DecidableEq σ] (keys : List σ) (c
           exact this)
       exact ⟨ub, f, rfl, rfl, hsafe⟩
 
+/-- **the honest corollary for the stirred tank: the advertised step is ZERO whenever the feed (or a reaction) raises a
+    species that already holds all of one of its elements** (`ub(y)[i] = y[i]`, `f[i] > 0` — e.g. every empty or one-species
+    tank with a feed): the callback clamps to the closed-system bound of the current state, so for `cstr=True` it certifies
+    no progress at all there (`euler_step_zero_iff` instantiated).  The float code returns `0.0` or rounding noise of either
+    sign (`−3.5e-18`) in this situation (notes/C06.md, limitation). -/
+theorem euler_step_cb_cstr_zero_when_fed_on_bound {σ : Type} [DecidableEq σ] (keys : List σ) (comps : List (EqSolve.Comp α))
+    (rs : List (Reaction σ α)) (cs : Cstr σ) (p : List (σ × α)) (y : List α) (h : α)
+    (hrun : maxEulerStepCbCstr keys comps rs cs p y = .ok h)
+    (hy : ∀ v ∈ y, 0 ≤ v) (hc : ∀ comp ∈ comps, ∀ p ∈ comp, p.1 ≠ 0 → 0 < p.2)
+    (ub : List (Option α)) (f : List α) (hub : EqSolve.upperConcBounds comps y = .ok ub) (hf : fvecCstr keys rs cs p y = .ok f)
+    (i : ℕ) (yi fi : α) (hyi : y[i]? = some yi) (hfi : f[i]? = some fi) (hpos : 0 < fi) (hon : ub[i]? = some (some yi)) :
+    h = 0 := by
+  unfold maxEulerStepCbCstr at hrun
+  by_cases hemp : rs.isEmpty = true
+  · rw [if_pos hemp] at hrun; cases hrun
+  rw [if_neg hemp, hub, hf] at hrun
+  simp only at hrun
+  have hylen : y.length = comps.length := by
+    unfold EqSolve.upperConcBounds at hub
+    split_ifs at hub with hl
+    exact not_not.mp hl
+  refine (euler_step_zero_iff y f ub h hrun (fun j yj hyj => hy yj (List.mem_of_getElem? hyj)) ?_).mpr
+    ⟨i, yi, fi, hyi, hfi, Or.inr ⟨hpos, hon⟩⟩
+  intro j yj u hyj hu
+  have hjl : j < y.length := (List.getElem?_eq_some_iff.mp hyj).1
+  have hjc : j < comps.length := hylen ▸ hjl
+  have := upper_bound_valid comps y y ub hub hylen hy
+    (fun comp hcomp p hp hk => (hc comp hcomp p hp hk).le) (fun _ _ => rfl) j hjc u hu
+    (fun p hp hk => hc _ (List.getElem_mem _) p hp hk)
+  have hyj' : y[j] = yj := (List.getElem?_eq_some_iff.mp hyj).2
+  rw [← hyj']
+  exact this
+
 end Step
 
 /-! ## the Euler update carries the element totals: `hinv` / `htot` derived from balance (C05) -/
